@@ -22,6 +22,7 @@ deriving Repr, DecidableEq
 /-- error a `Read` can end with -/
 inductive End where
   | eof | fail | scan   -- scan = malformed chunk header (non-EOF error of Fscanf)
+  | short               -- ErrIncompleteBody: the stream ended before its terminating zero-size chunk was read to its end
 deriving Repr, DecidableEq
 
 def Tail.toEnd : Tail → End
@@ -101,7 +102,13 @@ def scanHexSemi (input : Bytes) : ScanRes :=
 structure St where
   remain   : Int
   notFirst : Bool
+  /-- `lastChunkSize`: the size field of the chunk header read last -/
+  last     : Int := -1
+  /-- `complete`: the terminating zero-size chunk has been read to its end -/
+  complete : Bool := false
 deriving Repr, DecidableEq
+
+def St.init : St := { remain := 0, notFirst := false }
 
 /-- result of one `Read(p)` call -/
 structure ReadRes where
@@ -137,26 +144,35 @@ def read (cfg : Cfg) : (fuel : Nat) → St → Bytes → (want : Nat) → Bytes 
       match afterTrailer with
       | none => ⟨acc, { st with notFirst := true }, [], some cfg.tail.toEnd, false⟩
       | some inp1 =>
+        -- after the CRLF of a zero-size chunk the stream is complete (`r.complete = r.lastChunkSize == 0`)
+        let st1 : St := if st.notFirst then { st with complete := st.last == 0 } else st
         match scanHexSemi inp1 with
-        | .unknown => ⟨acc, st, inp1, some .scan, true⟩
-        | .eof => ⟨acc, { st with notFirst := true }, [], some cfg.tail.toEnd, false⟩
-        | .err => ⟨acc, { st with notFirst := true }, [], some .scan, false⟩
+        | .unknown => ⟨acc, st1, inp1, some .scan, true⟩
+        | .eof => ⟨acc, { st1 with notFirst := true }, [], some cfg.tail.toEnd, false⟩
+        | .err => ⟨acc, { st1 with notFirst := true }, [], some .scan, false⟩
         | .ok v inp2 =>
+          -- a further chunk header: `r.lastChunkSize = chunkSize; r.complete = false`
           match skip 82 inp2 with
-          | none => ⟨acc, { remain := v, notFirst := true }, [], some cfg.tail.toEnd, false⟩
-          | some inp3 => read cfg fuel { remain := v, notFirst := true } inp3 want acc
+          | none => ⟨acc, { remain := v, notFirst := true, last := v, complete := false }, [], some cfg.tail.toEnd, false⟩
+          | some inp3 => read cfg fuel { remain := v, notFirst := true, last := v, complete := false } inp3 want acc
+
+/-- `chunkedReader.Read`: the loop above (`r.read`), and an end of the inner stream before the
+    terminating zero-size chunk has been read to its end is an incomplete body -/
+def readF (cfg : Cfg) (fuel : Nat) (st : St) (input : Bytes) (want : Nat) (acc : Bytes) : ReadRes :=
+  let r := read cfg fuel st input want acc
+  if r.err = some .eof ∧ r.st.complete = false then { r with err := some .short } else r
 
 /-- a consumer that calls `Read` with the given buffer sizes until an error is returned
     (or the sizes run out): everything delivered, and how it ended -/
 def consume (cfg : Cfg) : List Nat → St → Bytes → Bytes → Bytes × Option End × Bool
   | [], _, _, acc => (acc, none, false)
   | b :: bs, st, input, acc =>
-    let r := read cfg (input.length + 2) st input b []
+    let r := readF cfg (input.length + 2) st input b []
     match r.err with
     | some e => (acc ++ r.out, some e, r.unk)
     | none => consume cfg bs r.st r.input (acc ++ r.out)
 
 def decode (cfg : Cfg) (bufs : List Nat) (input : Bytes) : Bytes × Option End × Bool :=
-  consume cfg bufs ⟨0, false⟩ input []
+  consume cfg bufs St.init input []
 
 end GFS.Model.Chunk
